@@ -13,7 +13,7 @@ import json
 import os
 
 from mc.drivers import terms as T
-from mc.engine.core import Collector, Result, Violation, pmap
+from mc.engine.core import Collector, Result, Violation, jleaf, pmap
 from mc.ref import hugrjson as H
 
 C, A = T.C, T.A
@@ -34,7 +34,10 @@ OP_DEFS = [
     ["withreqs", ["Poly", [], G([T.BOOL], [T.BOOL], ["prelude", "other.ext"])], False, "already requires others", {}],
     ["rowp", ["Poly", [["LP", ["TP", A]]], G([["R", 0, A]], [["Tuple", [["R", 0, A]]]])], False, "row polymorphic", {}],
 ]
-VALUES = [["v_unit", ["UnitV"]], ["v_tup", ["TupleV", [["TRUE"], ["IntV", 3, 5]]]]]
+VALUES = [["v_unit", ["UnitV"]], ["v_tup", ["TupleV", [["TRUE"], ["IntV", 3, 5]]]],
+          # values that select an *empty* variant of a sum which also has non-empty ones, and the empty tuple
+          ["v_none", ["NoneV", [T.BOOL]]], ["v_left0", ["LeftV", [], [T.BOOL, T.QB]]], ["v_mid", ["Sum", 1, ["Sum", [[T.BOOL], [], [T.UNIT]]], []]],
+          ["v_tup0", ["TupleV", []]], ["v_us", ["UnitSum", 2, 3]], ["v_some", ["SomeV", [["FloatV", 1.5]]]], ["v_fn", ["FuncV", "id"]]]
 VERSIONS = ["0.1.0", "1.2.3", "0.3.0-rc.1", "2.0.0+build.5", "1.0.0-alpha.2+exp.sha.5114f85"]
 REQS = [[], ["prelude"], ["prelude", "a.b.c"]]
 
@@ -51,6 +54,14 @@ def ext_specs(tier):
     tds = subsets(TYPE_DEFS, 2 if tier == "quick" else 3)
     ods = subsets(OP_DEFS, k)
     vs = [(), (0,), (1,), (0, 1)] + ([(1, 0)] if tier == "thorough" else [])
+    nv = len(VALUES)
+    # every further value alone (over a reduced definition alphabet), and all of them together
+    for j in range(2, nv):
+        for td in [(), (1,)]:
+            for od in [(), (1,)]:
+                yield [list(td), list(od), [j], VERSIONS[j % len(VERSIONS)], REQS[j % len(REQS)]]
+    yield [[], [], list(range(nv)), VERSIONS[0], REQS[1]]
+    yield [[0], [0], list(reversed(range(nv))), VERSIONS[2], REQS[2]]
     i = 0
     if tier == "thorough":
         # the full version x requirement product over a reduced definition alphabet
@@ -133,7 +144,7 @@ def norm_doc(d):
             return [n(y) for y in x]
         if isinstance(x, dict):
             return {k: (sorted(v) if k == "runtime_reqs" and isinstance(v, list) else n(v)) for k, v in x.items()}
-        return x
+        return jleaf(x)
 
     return n(d)
 
